@@ -142,6 +142,38 @@ func c15Pair(c *Ctx) {
 				}
 				return
 			}
+			// cache[t] = setPartitionCache(topic, t) in a counting loop `for t := lo; t < hi; t++` with constant bounds
+			if ph, isPhi := strip(ia.Index).(*ssa.Phi); isPhi && strip(cl.Call.Args[2]) == ssa.Value(ph) {
+				for _, l := range Info(fn).Loops {
+					if l.Head != ph.Block() {
+						continue
+					}
+					init, isC := loopIndexInit(ph, l).(*ssa.Const)
+					iff, isIf := lastInstr(l.Head).(*ssa.If)
+					if !isC || !isIf {
+						continue
+					}
+					bo, isBo := iff.Cond.(*ssa.BinOp)
+					if !isBo || bo.Op != token.LSS || strip(bo.X) != ssa.Value(ph) {
+						continue
+					}
+					hi, isC2 := bo.Y.(*ssa.Const)
+					// the step is +1
+					stepOK := false
+					for _, e := range ph.Edges {
+						if b2, ok := e.(*ssa.BinOp); ok && b2.Op == token.ADD && b2.X == ssa.Value(ph) && ConstInt(1)(b2.Y) {
+							stepOK = true
+						}
+					}
+					if isC2 && stepOK && (arr == nil || arr == al) {
+						arr = al
+						for k := init.Int64(); k < hi.Int64() && k < 2; k++ {
+							slots[k] = cl.Call.Args[1]
+						}
+					}
+				}
+				return
+			}
 			// cache[t] = setPartitionCache(topic, t) in a loop over a literal list of the partition sets
 			if elems := literalRangeElems(Info(fn), cl.Call.Args[2]); elems != nil && samePath(ia.Index, cl.Call.Args[2]) {
 				for _, e := range elems {
